@@ -22,6 +22,7 @@ META = dict(
         "REAL theory: floats are exact reals",
         "tolerance band at cell faces when sampling at a symbolic point (as C01)",
         "source-field resampling: concrete geometry (non-commensurate with the target), symbolic values",
+        "quick tier, 2-d line sampling: symbolic origin and end points, concrete anisotropic edge lengths (fully symbolic geometry in 1-d and in the thorough tier)",
     ],
     outside=["NaN/inf values", "n > 4 per axis", "string/ object dtypes"],
 )
@@ -298,7 +299,13 @@ def h_line(sx, cfg):
     nd = len(n)
     nv = cfg["nvdim"]
     npts = cfg["points"]
-    mesh, pmin, e = sym_mesh(sx, n, flip=False)
+    if cfg.get("edges"):
+        # symbolic origin, concrete (binary-exact, anisotropic) edge lengths: index arithmetic stays linear
+        pmin = sx.reals("pmin", nd)
+        e = [float(x) for x in cfg["edges"]]
+        mesh = df.Mesh(p1=tuple(pmin), p2=tuple(pmin[a] + e[a] for a in range(nd)), n=n)
+    else:
+        mesh, pmin, e = sym_mesh(sx, n, flip=False)
     arr = sx.real_array("v", (*n, nv))
     vd = _vd(cfg, nv)
     f = df.Field(mesh, nvdim=nv, value=arr, vdims=vd)
@@ -351,9 +358,10 @@ def h_line(sx, cfg):
         for a in range(nd):
             d2 = d2 + (pt[a] - p1[a]) * (pt[a] - p1[a])
         sx.check(f"r[{t}]", sx.And(r >= 0, sx.eq(r * r, d2)))
-        # value: that of a cell containing the point (band at faces)
+        # value: that of a cell containing the point (band at faces).  In the compositional configurations this is split into
+        # "line value == field(point)" (below) and h_sample's "field(point) is the value of a containing cell"
         alts = []
-        for idx in np.ndindex(*n):
+        for idx in (np.ndindex(*n) if not cfg.get("compositional") else ()):
             conds = []
             for a in range(nd):
                 band = 2 * tf * (mine + abs(pt[a]))
@@ -362,7 +370,8 @@ def h_line(sx, cfg):
                 conds.append(sx.And(pt[a] >= lo - band, pt[a] <= lo + c + band))
             vals = [sx.eq(row[col], arr[idx + (k,)]) for k, col in enumerate(line.value_columns)]
             alts.append(sx.And(*conds, *vals))
-        sx.check(f"value[{t}]", sx.Or(*alts))
+        if alts:
+            sx.check(f"value[{t}]", sx.Or(*alts))
         # "the values at those points": the same value as sampling the field at the line's own point
         direct = f(tuple(row[d] for d in dims) if nd > 1 else row[dims[0]])
         for k, col in enumerate(line.value_columns):
@@ -561,7 +570,7 @@ def tasks(tier):
         t.append(dict(harness="h_sample", cfg=dict(n=list(n), nvdim=nv), limits=dict(max_paths=20000, wall_budget=900)))
     # lines
     for n, nv, pts in ([((2,), 1, 3), ((2, 2), 2, 2), ((2, 1), 3, 3)] if q else [((3,), 1, 4), ((2,), 2, 5), ((2, 2), 2, 3), ((2, 1, 2), 3, 2), ((3, 2), 1, 2)]):
-        t.append(dict(harness="h_line", cfg=dict(n=list(n), nvdim=nv, points=pts, labels="custom" if nv > 1 and pts % 2 else "default"),
+        t.append(dict(harness="h_line", cfg=dict(n=list(n), nvdim=nv, points=pts, labels="custom" if nv > 1 and pts % 2 else "default", **(dict(edges=[1.5, 0.5] if n == (2, 2) else [0.75, 2.0]) if q and len(n) == 2 else {})),
                       limits=dict(max_paths=20000, wall_budget=900 if q else 3300)))
         t.append(dict(harness="h_line", cfg=dict(n=list(n), nvdim=nv, points=pts, outside=len(n))))
     # source fields (concrete, pairwise non-commensurate geometry; symbolic values)
